@@ -16,7 +16,16 @@ Oracle (on the implementation's own output, independent exact arithmetic with
 abscissa, no robust crossing of the vertical line has a larger ordinate, omitted abscissae have
 no robust crossing, default abscissae span the extent, swap_axis == exchanging the columns;
 for `intersection`: every point lies on both polylines, every robust crossing is reported, the
-number of points is between #robust and #robust+#fragile crossings.
+number of points is between #robust and #robust+#fragile crossings, and every point can be assigned
+a crossing pair of its own (a crossing reported twice is rejected).
+Input classes (each with an evidence counter): calling conventions positional / keyword / mixed /
+relying on the defaults; contour as stub, as `virocon.contours.Contour` subclass instance, as the
+genuine IFORM/ISORM/direct-sampling object; float64 and int64/int32 coordinates; counts as Python int
+and numpy integer scalars incl. 0 and 1; empty abscissa list (shape (0, 2) is a correspondence, not a
+clause); already-closed contours and repeated vertices (singular 4x4 systems); `intersection` with
+arrays, lists, tuples, (n,1) columns, integer arrays; NaN-broken curves (correspondence with the
+model on the NaN-free pieces only). `coverage_floor`: a run that could not build the real contour
+kinds of the quantifier is a MACHINERY-ERROR, not exit 0.
 """
 import math
 import multiprocessing
@@ -236,7 +245,10 @@ def contour_object(coords, contour="stub", cdtype="float", objkey=None):
                 return obj, "genuine"
         contour = "real"
     if contour == "real":
-        return _given_contour(arr), "real"
+        try:
+            return _given_contour(arr), "real"
+        except Exception:  # noqa: BLE001  (the Contour base class is not the object of this check; `coverage_floor`
+            return _Contour(arr, dtype=arr.dtype), "real_unavailable"   # raises when no case ran on a real object)
     return _Contour(arr, dtype=arr.dtype), "stub"
 
 
@@ -1053,6 +1065,8 @@ def coverage_floor(ck):
             problems.append(f"{kind}: {built} of {tried} contours built, {used} design cases ({', '.join(why) or 'no failure recorded'})")
     if ck.dist.get("design:contour_object=genuine", 0) == 0:
         problems.append("no design case was run on a genuine contour object")
+    if ck.dist.get("design:contour_object=real", 0) == 0:
+        problems.append("no design case was run on a virocon.contours.Contour subclass instance")
     if ck.dist.get("contour_model=predefined", 0) == 0:
         problems.append("no predefined model could be built")
     return problems
@@ -1441,7 +1455,11 @@ def main(ck):
         "parallel), float degenerate pairs; design conditions on random star-shaped polygons (all sign combinations, "
         "spiky, both orientations), star-shaped lattice polygons and IFORM/ISORM/direct-sampling contours of random "
         "Weibull+conditional-LogNormal and predefined models x steps None/int/lists inside, outside, through vertices, on "
-        "the extremes, one ulp around vertices x both swap_axis; non-trivial: intersection case with >= 1 bounding-box "
+        "the extremes, one ulp around vertices, empty list, counts 0/1 and numpy integer counts x both swap_axis x calling "
+        "convention (positional, keyword, mixed, defaults) x contour object (stub, Contour subclass, genuine) x float / "
+        "integer coordinate arrays; already-closed and repeated-vertex variants of every third contour; intersection inputs "
+        "as arrays / lists / tuples / (n,1) columns / integer arrays; NaN-broken curves (correspondence on the pieces); "
+        "non-trivial: intersection case with >= 1 bounding-box "
         "candidate pair, design case with >= 3 vertices and >= 1 abscissa that crosses; distinct by SHA1 of the case"
     )
     ck.assumptions = [
@@ -1454,6 +1472,8 @@ def main(ck):
     ]
     ck.partial = {
         "default abscissae all cross the contour (count == num)": "observed on every explored contour (needs an intermediate-value argument on the closed polygon, not proven)",
+        "empty result has shape (0, 2)": "checked as a correspondence with the model's empty row list, not a clause of the property",
+        "NaN-broken curves": "documented in the docstring of `intersection`, outside the property's 'polylines': only the correspondence with the model on the NaN-free pieces is checked, no property oracle",
         "float rounding at a vertex": "a probe line through a vertex in non-dyadic doubles may lose the vertex (both adjacent t round outside [0,1]); such crossings are classified borderline and either decision is accepted",
     }
     rng = np.random.default_rng([ck.seed, 17])
